@@ -19,7 +19,7 @@ import (
 func Spec() *run.Spec {
 	return &run.Spec{
 		ID: "C12", Level: "exploration",
-		Rule: "phase histories: case = one edit history of 5-80 operations through the graph.Instance methods the HTTP handlers call (CreateNode over every registered node type incl. harness-registered order-sensitive array / formatting nodes, ConnectNodes incl. bursts that take array inputs to 0-15 entries, DeleteNodeInputConnection, UpdateParameter for every parameter type, SetName/SetDescription, SetNodeAsProducer, SetMetadata/DeleteMetadata, DeleteNode of nodes nothing depends on, generating an artifact mid-history), starting from an empty application or from a hand-built App.Files graph; " +
+		Rule: "phase histories: case = one edit history of 5-80 operations through the graph.Instance methods the HTTP handlers call (CreateNode over every registered node type incl. harness-registered order-sensitive array / formatting nodes, ConnectNodes incl. bursts that take array inputs to 0-15 entries, DeleteNodeInputConnection, UpdateParameter for every parameter type, SetName/SetDescription, SetNodeAsProducer, SetMetadata/DeleteMetadata, DeleteNode of nodes nothing depends on, generating an artifact mid-history), with intermediate saves like the editor's autosave (App.Schema() after every edit / after a random fifth of the edits / never; every tenth intermediate file is itself loaded into a fresh application and compared with the graph at that moment), starting from an empty application or from a hand-built App.Files graph; " +
 			"then S1 = App.Schema(), a fresh generator.App applies S1, and the two applications are compared through public observers (node ids and types, per node the map input name -> dependency id:port with array inputs by position, parameter ToMessage()/name/Schema(), producers, metadata tree, application fields), every producer's artifact is generated on both sides and compared, and S2 = fresh.Schema() must equal S1 byte for byte. " +
 			"Non-trivial: the saved graph has an array input with >= 10 connections or >= 3 parameter types. Distinctness: start state / node-count bucket / longest array bucket / parameter-type count / producer count / deletions / metadata. " +
 			"phase ufo: the shipped examples/graphs/ufo.json: load -> save must reproduce the file, S1 into three fresh applications (structure, S2 == S1, artifacts; a producer whose three artifacts are not pairwise identical is excluded as non-deterministic; .glb compared after parsing).",
@@ -100,7 +100,7 @@ func historyCase(c *run.Ctx) run.Result {
 	if h == nil || h.dead || res.Inconclusive != "" {
 		return res
 	}
-	checkReload(c, &res, h)
+	checkReload(c, &res, h, true)
 	return res
 }
 
@@ -114,13 +114,34 @@ func runHistory(c *run.Ctx, res *run.Result) *hist {
 	}
 	nops := 5 + rr.Intn(76)
 	c.Note(fmt.Sprintf("history start=%s ops=%d", h.start, nops))
+	// Intermediate saves, the way the editor's autosave does them (GraphSaver.Save
+	// writes App.Schema() after every edit): after every edit, after a random fifth
+	// of them, or never. A sample of the intermediate files is loaded into a fresh
+	// application and compared with the graph as it is at that moment.
+	mode := []string{"every-edit", "random", "random", "never"}[rr.Intn(4)]
+	h.autosave = mode
 	for i := 0; i < nops && !h.dead; i++ {
 		h.step()
+		if h.dead || mode == "never" || (mode == "random" && rr.Intn(5) != 0) {
+			continue
+		}
+		if rr.Intn(10) == 0 {
+			h.logf("save+reload")
+			res.Count("intermediate_saves", 1)
+			checkReload(c, res, h, false)
+		} else {
+			h.logf("save")
+			res.Count("intermediate_saves", 1)
+			h.try("App.Schema (autosave)", func() { h.app.Schema() })
+		}
 	}
 	return h
 }
 
-func checkReload(c *run.Ctx, res *run.Result, h *hist) {
+// checkReload saves the application of h, loads the file into a fresh application
+// and compares. final = the save at the end of the history (evidence, artifacts);
+// otherwise an intermediate save (structure and re-save only).
+func checkReload(c *run.Ctx, res *run.Result, h *hist, final bool) {
 	violate := func(class, site, input, detail string) {
 		res.Violate(class, site, input, detail, h.witness())
 	}
@@ -177,7 +198,13 @@ func checkReload(c *run.Ctx, res *run.Result, h *hist) {
 	}
 	// ---- evidence about what was compared ----------------------------------------
 	maxArr, arrConns, params, ptypes := 0, 0, 0, map[string]bool{}
+	if !final {
+		res.Count("intermediate_saves_reloaded_and_compared", 1)
+	}
 	for _, n := range orig.Nodes {
+		if !final {
+			break
+		}
 		for _, l := range arrays(n.Deps) {
 			arrConns += len(l)
 			if len(l) > maxArr {
@@ -191,18 +218,20 @@ func checkReload(c *run.Ctx, res *run.Result, h *hist) {
 		}
 		res.SetAdd("node_types_saved", shortType(n.Type))
 	}
-	res.Count("nodes_compared", int64(len(orig.Nodes)))
-	res.Count("parameters_compared", int64(params))
-	res.Count("array_connections_compared", int64(arrConns))
-	res.Count("producers_compared", int64(len(orig.Producers)))
-	if maxArr >= 10 {
-		res.Count("saved_graphs_array_ge10", 1)
-	}
-	if orig.Metadata != "null" {
-		res.Count("saved_graphs_with_metadata", 1)
-	}
-	if bytes.Contains(s1, []byte(`"bufferViews"`)) {
-		res.Count("saved_graphs_with_binary_buffers", 1)
+	if final {
+		res.Count("nodes_compared", int64(len(orig.Nodes)))
+		res.Count("parameters_compared", int64(params))
+		res.Count("array_connections_compared", int64(arrConns))
+		res.Count("producers_compared", int64(len(orig.Producers)))
+		if maxArr >= 10 {
+			res.Count("saved_graphs_array_ge10", 1)
+		}
+		if orig.Metadata != "null" {
+			res.Count("saved_graphs_with_metadata", 1)
+		}
+		if bytes.Contains(s1, []byte(`"bufferViews"`)) {
+			res.Count("saved_graphs_with_binary_buffers", 1)
+		}
 	}
 	// ---- save again ----------------------------------------------------------------
 	var s2 []byte
@@ -225,6 +254,9 @@ func checkReload(c *run.Ctx, res *run.Result, h *hist) {
 		}
 	} else {
 		res.Count("resave_identical", 1)
+	}
+	if !final {
+		return
 	}
 	// ---- artifacts -------------------------------------------------------------------
 	for _, name := range sortedKeys(orig.Producers) {
@@ -298,7 +330,8 @@ func checkReload(c *run.Ctx, res *run.Result, h *hist) {
 
 	nt := maxArr >= 10 || len(h.paramTypes) >= 3
 	res.Nontrivial = nt
-	res.Sig = fmt.Sprintf("%s/n%s/arr%s/pt%d/prod%d/del%v/meta%v", h.start, bucket(len(orig.Nodes)), bucket(maxArr), len(ptypes), imin(len(orig.Producers), 3), h.deletions > 0, h.metaOps > 0)
+	res.SetAdd("autosave_modes", h.autosave)
+	res.Sig = fmt.Sprintf("%s/save=%s/n%s/arr%s/pt%d/prod%d/del%v/meta%v", h.start, h.autosave, bucket(len(orig.Nodes)), bucket(maxArr), len(ptypes), imin(len(orig.Producers), 3), h.deletions > 0, h.metaOps > 0)
 	first := h.ops
 	if len(first) > 10 {
 		first = first[:10]
